@@ -1,0 +1,78 @@
+//! Simulation seam, compiled only with `--cfg rcgen_verif`.
+//!
+//! The attribute map inside [`DistinguishedName`](crate::DistinguishedName) normally
+//! uses `std::collections::hash_map::RandomState`, whose keys differ per map instance
+//! and per process. Under the guard the keys are drawn from a thread-local stream that
+//! a simulator seeds, so one seed is one exact iteration order for every map instance.
+
+use std::cell::Cell;
+use std::hash::{BuildHasher, Hasher};
+
+thread_local! {
+	static STREAM: Cell<u64> = const { Cell::new(0x9e37_79b9_7f4a_7c15) };
+}
+
+/// Reseed the calling thread's stream of hash keys.
+pub fn set_hash_seed(seed: u64) {
+	STREAM.with(|s| s.set(seed));
+}
+
+fn next_key() -> u64 {
+	STREAM.with(|s| {
+		let x = s.get().wrapping_add(0x9e37_79b9_7f4a_7c15);
+		s.set(x);
+		mix(x)
+	})
+}
+
+fn mix(mut z: u64) -> u64 {
+	z = (z ^ (z >> 30)).wrapping_mul(0xbf58_476d_1ce4_e5b9);
+	z = (z ^ (z >> 27)).wrapping_mul(0x94d0_49bb_1331_11eb);
+	z ^ (z >> 31)
+}
+
+/// Seeded replacement for `RandomState`: new keys per `default()`, kept by `clone()`.
+#[derive(Clone, Debug)]
+pub struct SimHashState {
+	k0: u64,
+	k1: u64,
+}
+
+impl Default for SimHashState {
+	fn default() -> Self {
+		Self {
+			k0: next_key(),
+			k1: next_key(),
+		}
+	}
+}
+
+impl BuildHasher for SimHashState {
+	type Hasher = SimHasher;
+
+	fn build_hasher(&self) -> SimHasher {
+		SimHasher {
+			state: self.k0,
+			k1: self.k1,
+		}
+	}
+}
+
+/// Keyed hasher produced by [`SimHashState`].
+#[derive(Clone, Debug)]
+pub struct SimHasher {
+	state: u64,
+	k1: u64,
+}
+
+impl Hasher for SimHasher {
+	fn write(&mut self, bytes: &[u8]) {
+		for b in bytes {
+			self.state = (self.state ^ u64::from(*b)).wrapping_mul(0x0000_0100_0000_01b3);
+		}
+	}
+
+	fn finish(&self) -> u64 {
+		mix(self.state ^ self.k1)
+	}
+}
